@@ -1,3 +1,15 @@
 # property id -> [(module under parts/, function, kwargs)]
+G = "gosym_part"
+
 PARTS = {
+    "C14": [
+        (G, "gosym_part", dict(name="c14_type_plans", entry="internal/zzverif.C14Type", args_quick=(1, 1), args_thorough=(2, 1),
+                               extra_thorough=("-max-paths", "400000"),
+                               required_sites=("cpp-write-plan", "cpp-read-plan", "python-plan", "matlab-plan"),
+                               desc="one symbolic type (args: nesting depth, number of leaves ranging over all 18 primitives) through cpp/binary.typeRwFunction "
+                                    "(write+read), python/binary.typeSerializer, matlab/binary.typeSerializer; each emitted expression parsed and mapped "
+                                    "through the backend head table must equal Plan(T); vector lengths / array dimensions are symbolic 64-bit values",
+                               assumptions=["head tables in harness/go/internal/zzverif/zz_plan.go give the meaning of each runtime entry point",
+                                            "type shapes limited to the generator in zz_gen.go (depth bound; union = 2 cases (+null); records 1-2 fields; one generic parameter)"])),
+    ],
 }
